@@ -329,6 +329,9 @@ def extract_fn(relpath, qual, ann):
     apply_bound_ctor_maps(ed, src, s0, e0)
     apply_int_min(ed, it, src)
     apply_range_next(ed, it, src)
+    apply_be_vec(ed, it, src)
+    apply_admin_set(ed, it, src)
+    apply_ref_tuple_patterns(ed, src, s0, e0)
     apply_destructuring_assign(ed, src, s0, e0)
     apply_format_macros(ed, it, src)
     apply_storage_has(ed, it, src)
@@ -588,9 +591,19 @@ def _range_chain(it, src, end):
     if arg(rg, 2) != "None" or arg(rg, 3) not in ("Order::Ascending", "Order::Descending") or (desc and arg(rg, 1) != "None"):
         raise Inconclusive("D22: storage range with an upper bound, or descending with a lower bound, is not modelled")
     mexpr = src[rg["span"][0]:rg["recv_end"]].decode().strip()
+    skip = arg(sk, 0) if sk is not None else "0"
+    pm = call_ending_at(rg["recv_end"], "prefix")
+    if pm is not None and len(pm["args"]) == 1 and not desc:
+        # prefix form: `MAP.prefix((a, b)).range(store, START, None, Ascending)[.skip(N)].take(LIMIT)`
+        mexpr = src[pm["span"][0]:pm["recv_end"]].decode().strip()
+        if not re.match(r"^[A-Z_][A-Z0-9_]*$", mexpr):
+            raise Inconclusive(f"D22: prefix receiver `{mexpr[:30]}` is not a storage map constant")
+        pre = f"let verif_skip: usize = {skip}; let verif_limit: usize = {arg(tk, 0)}; "
+        call = f"verif_prefix_range_from(&{mexpr}, {arg(rg, 0)}, {arg(pm, 0)}, {arg(rg, 1)}, verif_skip, verif_limit)"
+        return {"start": pm["span"][0], "call": call, "keys": None, "pre": pre,
+                "shape": f"{mexpr}.prefix(..).range(.., {arg(rg, 1)}, None, Ascending)" + (f".skip({skip})" if sk is not None else "") + f".take({arg(tk, 0)})"}
     if not re.match(r"^[A-Z_][A-Z0-9_]*$", mexpr):
         raise Inconclusive(f"D22: range receiver `{mexpr[:30]}` is not a storage map constant")
-    skip = arg(sk, 0) if sk is not None else "0"
     pre = f"let verif_skip: usize = {skip}; let verif_limit: usize = {arg(tk, 0)}; "
     if desc:
         call = f"verif_range_raw_desc(&{mexpr}, {arg(rg, 0)}, verif_skip, verif_limit)"
@@ -612,6 +625,56 @@ def apply_int_min(ed, it, src, inside=lambda sp: True):
             continue
         ed.add(m["span"][0], m["span"][0], "verif_ord_min(", "D18", f"`.min({a})` on a primitive integer -> verif_ord_min")
         ed.add(m["recv_end"], m["args"][0][0], ", ", None)
+
+
+_REFPAT = re.compile(rb"if\s+let\s+Some\(\s*\(\s*_\s*,\s*&\(\s*(\w+)\s*,\s*(\w+)\s*\)\s*\)\s*\)\s*=\s*")
+
+
+def apply_ref_tuple_patterns(ed, src, lo, hi):
+    """D24 (mechanical): `if let Some((_, &(A, B))) = EXPR {` -> `if let Some(verif_kv) = EXPR { let A = verif_kv.1.0; let B = verif_kv.1.1;`
+    (`_` components are skipped): Verus rejects reference patterns; the bound names are the same copies of the tuple's components."""
+    body = src[lo:hi]
+    for n, m in enumerate(_REFPAT.finditer(body)):
+        a, b = m.group(1).decode(), m.group(2).decode()
+        # find the `{` that opens the THEN block: first `{` at nesting depth 0 after the scrutinee
+        i, depth = m.end(), 0
+        while i < len(body):
+            c = body[i:i + 1]
+            if c in (b"(", b"["): depth += 1
+            elif c in (b")", b"]"): depth -= 1
+            elif c == b"{" and depth == 0: break
+            i += 1
+        if i >= len(body):
+            raise Inconclusive("D24: no block after `if let Some((_, &(..)))`")
+        ed.add(lo + m.start(), lo + m.end(), f"if let Some(verif_kv{n}) = ", "D24", "reference tuple pattern `Some((_, &(a, b)))` spelled out")
+        binds = "".join(f" let {nm} = verif_kv{n}.1.{j};" for j, nm in enumerate((a, b)) if nm != "_")
+        ed.add(lo + i + 1, lo + i + 1, binds, None)
+
+
+def apply_admin_set(ed, it, src, inside=lambda sp: True):
+    # R15: `ADMIN.set(deps.branch(), X)` -> `ADMIN.set_in(deps.storage, X)` (Verus cannot relate the nested `&mut` of a re-borrowed DepsMut;
+    # cw-controllers' Admin::set writes storage only)
+    for m in it["mcalls"]:
+        if m["name"] != "set" or len(m["args"]) != 2 or not inside(m["span"]):
+            continue
+        a0 = src[m["args"][0][0]:m["args"][0][1]].decode().strip()
+        recv = src[m["span"][0]:m["recv_end"]].decode().strip()
+        if a0 != "deps.branch()" or not re.match(r"^[A-Z_]+$", recv):
+            continue
+        ed.add(m["recv_end"], m["args"][0][1], ".set_in(deps.storage", "R15", "`ADMIN.set(deps.branch(), ..)` -> `ADMIN.set_in(deps.storage, ..)`")
+
+
+def apply_be_vec(ed, it, src, inside=lambda sp: True):
+    # D14 (mechanical): `EXPR.to_be_bytes().to_vec()` -> `verif_u64_be_vec(EXPR)` (u64 only: another integer type fails to type-check)
+    for m in it["mcalls"]:
+        if m["name"] != "to_vec" or m["args"] or not inside(m["span"]):
+            continue
+        be = [b for b in it["mcalls"] if b["name"] == "to_be_bytes" and not b["args"] and b["span"][1] == m["recv_end"]]
+        if len(be) != 1:
+            continue
+        be = be[0]
+        recv = src[be["span"][0]:be["recv_end"]].decode()
+        ed.add(m["span"][0], m["span"][1], f"verif_u64_be_vec({recv})", "D14", "`x.to_be_bytes().to_vec()` -> verif_u64_be_vec(x)")
 
 
 def apply_range_next(ed, it, src, inside=lambda sp: True):
@@ -683,7 +746,7 @@ def apply_maploops(ed, it, closures, src, ann, qual, relpath):
                 else f"let {ptxt} = &verif_src[verif_i];")
         bs0, bs1 = c["body"]
         ghost_keys = ""
-        if rng is not None:
+        if rng is not None and rng.get("keys"):
             ghost_keys = " let ghost verif_keys = " + rng["keys"] + ";"
         head = ("{ " + (rng["pre"] if rng is not None else "") + "let verif_src = " + xsrc + ";" + ghost_keys + " let mut verif_out" + (f": Vec<{elem_ty}>" if elem_ty else "") + " = Vec::new(); let mut verif_i: usize = 0;\n"
                 "while verif_i < verif_src.len()\n" + inv.rstrip() + "\n    decreases verif_src.len() - verif_i\n{ " + bind + "\n")
@@ -875,11 +938,18 @@ def extract_segment(relpath, qual, ann):
     apply_maploops(ed, it, seg_closures, src, ann, qual, relpath)
     apply_forloops(ed, seg_loops, src, ann, qual)
     apply_fund_sums(ed, src, s0, e0)
+    apply_bound_ctor_maps(ed, src, s0, e0)
+    apply_int_min(ed, it, src, inside)
+    apply_range_next(ed, it, src, inside)
+    apply_be_vec(ed, it, src, inside)
+    apply_admin_set(ed, it, src, inside)
+    apply_ref_tuple_patterns(ed, src, s0, e0)
     apply_destructuring_assign(ed, src, s0, e0)
     apply_format_macros(ed, it, src, inside)
     apply_storage_has(ed, it, src, inside)
     apply_anyloops(ed, it, seg_closures, src, ann, qual)
     apply_findloops(ed, it, seg_closures, src, ann, qual)
+    apply_findmuts(ed, it, seg_closures, src, ann, qual)
     if ann.get("tail") and k1 == len(st):
         ed.add(st[-1]["span"][0], st[-1]["span"][0], ann["tail"].rstrip() + "\n", "A1")
     body_text, segs = ed.render()
